@@ -39,9 +39,10 @@ func GenerateRego(profileText string, debug bool, eventChan *chan e.Event) (*gen
 	return &module, err
 }
 
-// unsafeBuiltinsMap When updating to 0.35 ast.NetLookupIPAddr will be available and needs to be added and blocked too
+// unsafeBuiltinsMap built-ins able to reach the network, inspect the host process or re-enter the compiler
 var unsafeBuiltinsMap = map[string]struct{}{
 	ast.HTTPSend.Name:        {},
+	ast.NetLookupIPAddr.Name: {},
 	ast.WalkBuiltin.Name:     {},
 	ast.OPARuntime.Name:      {},
 	ast.RegoParseModule.Name: {},
